@@ -7,6 +7,7 @@ import (
 	"bufio"
 	"fmt"
 	"io"
+	"os"
 	"os/exec"
 	"strconv"
 	"strings"
@@ -34,6 +35,10 @@ type Solver struct {
 
 func NewSolver(bin string, timeoutMs int) (*Solver, error) {
 	s := &Solver{bin: bin, timeout: timeoutMs}
+	if d := os.Getenv("GSE_SMTLOG"); d != "" {
+		f, _ := os.CreateTemp(d, "smt-*.smt2")
+		s.log = f
+	}
 	if strings.Contains(bin, "cvc5") {
 		s.args = []string{"--incremental", "--lang=smt2", "--produce-models", fmt.Sprintf("--tlimit-per=%d", timeoutMs)}
 	} else {
@@ -241,7 +246,9 @@ func (s *Solver) ref(t *Term) string {
 			continue
 		}
 		s.noteT(cur.ID)
-		s.send(fmt.Sprintf("(define-fun t%d () %s %s)", cur.ID, sortName(cur.Sort, cur.W), s.body(cur)))
+		// a definition is a fresh constant constrained to equal its body: z3 4.8.12 expands
+		// nullary define-fun macros into trees (measured: 15k definitions -> timeout vs 0.2 s)
+		s.send(fmt.Sprintf("(declare-const t%d %s)(assert (= t%d %s))", cur.ID, sortName(cur.Sort, cur.W), cur.ID, s.body(cur)))
 	}
 	return "t" + strconv.Itoa(t.ID)
 }
